@@ -612,7 +612,13 @@ func (e *Env) evalSel(n ESel) TV {
 	// direct or promoted (embedded) fields, one level of embedding through pointers
 	for i := 0; i < st.NumFields(); i++ {
 		if st.Field(i).Name() == n.Sel {
-			return TV{term: fmt.Sprintf("(%s %s)", vc.fieldAcc(t, i), term), typ: st.Field(i).Type()}
+			ft := fmt.Sprintf("(%s %s)", vc.fieldAcc(t, i), term)
+			// a field of integer type holds a value of that type
+			if isIntType(st.Field(i).Type()) && !strings.Contains(ft, "qv!") && !strings.Contains(ft, "pa!") && !vc.declared["fldfact:"+ft] {
+				vc.declared["fldfact:"+ft] = true
+				vc.assume(vc.rangeFact(ft, st.Field(i).Type()))
+			}
+			return TV{term: ft, typ: st.Field(i).Type()}
 		}
 	}
 	for i := 0; i < st.NumFields(); i++ {
@@ -778,6 +784,11 @@ func (e *Env) evalCall(n ECall, hint types.Type) TV {
 		case *types.Basic:
 			return TV{term: vc.strLen(a.term), typ: it}
 		case *types.Slice:
+			// every slice value of a well-typed state satisfies 0 <= len <= cap
+			if !vc.isBV() && !strings.Contains(a.term, "qv!") && !strings.Contains(a.term, "pa!") && !vc.declared["slfact:"+a.term] {
+				vc.declared["slfact:"+a.term] = true
+				vc.assume(fmt.Sprintf("(and (<= 0 (slen_ %s)) (<= (slen_ %s) (scap %s)) (<= (scap %s) 281474976710656))", a.term, a.term, a.term, a.term))
+			}
 			return TV{term: fmt.Sprintf("(slen_ %s)", a.term), typ: it}
 		case *types.Array:
 			return TV{term: vc.intLitN(u.Len(), it), typ: it}
@@ -841,6 +852,37 @@ func (e *Env) evalCall(n ECall, hint types.Type) TV {
 		}
 		k := e.coerce(e.eval(n.Args[1], kt), kt)
 		return TV{term: fmt.Sprintf("(select %s %s)", e.st.get(name), k.term), typ: bt}
+	case "mapsum", "maptotal":
+		// mapsum(m, n, f) / maptotal(m, f): see mapSumFuncs
+		mv := e.eval(n.Args[0], nil)
+		mt, ok := mv.typ.Underlying().(*types.Map)
+		if !ok {
+			e.fail("%s on non-map", id.Name)
+		}
+		fid, ok := n.Args[len(n.Args)-1].(EIdent)
+		if !ok {
+			e.fail("%s: last argument must name a spec function", id.Name)
+		}
+		pd := vc.eng.cs.Preds[fid.Name]
+		if pd == nil || len(pd.Params) != 2 {
+			e.fail("%s: %s is not a spec function of (key, value)", id.Name, fid.Name)
+		}
+		psum, ptot := vc.mapSumFuncs(mt, pd)
+		obj := fmt.Sprintf("(select %s %s)", e.st.get(vc.mapHeapVar(mt)), mv.term)
+		if id.Name == "maptotal" {
+			return TV{term: fmt.Sprintf("(%s %s)", ptot, obj), typ: vc.eng.mathint}
+		}
+		lit, ok := n.Args[1].(ENum)
+		ord := 0
+		if !ok || e.fr == nil {
+			e.fail("mapsum(m, n, f): n must be a literal ordinal")
+		}
+		fmt.Sscan(lit.Text, &ord)
+		name, _ := e.fr.top().visitedByOrdinal(ord)
+		if name == "" {
+			e.fail("mapsum: no map range statement %d", ord)
+		}
+		return TV{term: fmt.Sprintf("(%s %s %s)", psum, obj, e.st.get(name)), typ: vc.eng.mathint}
 	case "mapobj":
 		// the whole map value (keys+vals+size) for equality/frame statements
 		m := e.eval(n.Args[0], nil)
@@ -1241,8 +1283,50 @@ func (e *Env) pureCallIdx(name string, args []Expr, obj types.Object, ridx int) 
 		fname = fmt.Sprintf("%s_n%d", fname, len(args))
 	}
 	vc.decl("f:"+fname, fmt.Sprintf("(declare-fun %s (%s) %s)", fname, strings.Join(sorts, " "), vc.sortOf(rt)))
+	if ridx == 0 && !sig.Variadic() {
+		e.numericPureAxiom(fc, fname, sig)
+	}
 	if len(ts) == 0 {
 		return TV{term: fname, typ: rt}
 	}
 	return TV{term: fmt.Sprintf("(%s %s)", fname, strings.Join(ts, " ")), typ: rt}
+}
+
+// numericPureAxiom: for a pure assumed function from integers to an integer the `ensures`
+// clauses are asserted once as a quantified axiom over the uninterpreted function, so that they
+// also hold for applications inside spec functions and under quantifiers (SizeOfVarint: 1..10).
+func (e *Env) numericPureAxiom(fc *FuncContract, fname string, sig *types.Signature) {
+	vc := e.vc
+	if len(fc.Ensures) == 0 || sig.Results().Len() != 1 || !isIntType(sig.Results().At(0).Type()) || vc.declared["pureax:"+fname] {
+		return
+	}
+	for i := 0; i < sig.Params().Len(); i++ {
+		if !isIntType(sig.Params().At(i).Type()) {
+			return
+		}
+	}
+	vc.declared["pureax:"+fname] = true
+	env := &Env{vc: vc, fr: e.fr, names: map[string]TV{}, bound: map[string]TV{}, st: e.st, old: e.st, pkg: e.pkg}
+	var binders, args, ranges []string
+	for i := 0; i < sig.Params().Len() && i < len(fc.Params); i++ {
+		vc.nfresh++
+		bn := fmt.Sprintf("qv!%s_%d", sanitize(fc.Params[i].Name), vc.nfresh)
+		pt := sig.Params().At(i).Type()
+		binders = append(binders, fmt.Sprintf("(%s %s)", bn, vc.sortOf(pt)))
+		args = append(args, bn)
+		env.names[fc.Params[i].Name] = TV{term: bn, typ: pt}
+		if rf := vc.rangeFact(bn, pt); rf != "true" {
+			ranges = append(ranges, rf)
+		}
+	}
+	if len(args) != sig.Params().Len() || len(fc.Results) != 1 {
+		return
+	}
+	app := fmt.Sprintf("(%s %s)", fname, strings.Join(args, " "))
+	env.names[fc.Results[0].Name] = TV{term: app, typ: sig.Results().At(0).Type()}
+	var conj []string
+	for _, c := range fc.Ensures {
+		conj = append(conj, env.evalBool(c.E))
+	}
+	vc.assume(fmt.Sprintf("(forall (%s) (! (=> %s %s) :pattern (%s)))", strings.Join(binders, " "), and(ranges...), and(conj...), app))
 }
